@@ -37,7 +37,7 @@ CONSTANTS MinN, MaxN, \* glyph counts MinN..MaxN
           Kinds,     \* subset of {"ttf", "cff", "cid"}
           CmapFormats, \* cmap subtable formats the font may carry: subset of {"4", "12", "6", "0", "0mac"}
           LigFirst,  \* 0, or g >= 1: every ligature rule starts with glyph g and shares one subtable
-          TextSel,   \* "none" | "A" | "mix": explicit glyph texts for MakeSimple (CFF kinds)
+          TextSel,   \* "none" | "A" | "mix" | "long": explicit glyph texts for MakeSimple (CFF kinds)
           Flags,     \* TRUE: also vary the single-substitution format (Gsub1_1 / Gsub1_2)
           Quiet      \* TRUE: no CASE output (exhaustive satisfiability runs)
 
@@ -82,6 +82,10 @@ Pool == CASE PoolSel = "tiny"  -> PoolTiny
 \* and more glyphs compete for one glyph-list name and its variants
 Texts == CASE TextSel = "A"   -> {<<65>>}
            [] TextSel = "mix" -> {<<65>>, <<105, 106>>, <<307>>, <<545>>}
+           \* "long": a text whose glyph-list name (guillemotleft_guillemotright, 28 bytes) is a valid name while
+           \* every variant of it is longer than a name may be (31 bytes): the glyphs that lose the competition
+           \* for the name fall back to placeholders
+           [] TextSel = "long" -> {<<65>>, <<171, 187>>}
            [] OTHER           -> {}
 HasText == Texts # {} /\ kind # "ttf"
 
